@@ -308,6 +308,9 @@ func (m *Machine) yield(why string) {
 	if m.cur == nil || m.tearing {
 		return
 	}
+	if m.spec > 0 {
+		panic(specAbort{})
+	}
 	if m.preemptions >= m.cfg.Preempt {
 		return
 	}
